@@ -1116,6 +1116,8 @@ Notes:
             if msg:
                 self._stepmon.info('STOP("%s")' % msg)
                 self.__save_state(force=True)
+        elif self._live: # found terminated before stepping: cleanup/finalize
+            self.Finalize()
         return msg
 
     def _Solve(self, cost, ExtraArgs, **settings):
